@@ -28,6 +28,16 @@ theorem callsIn_runtime : ∀ (g : GSpec), ∀ c ∈ callsIn g, runtimeMethods.c
     rcases hc with rfl | hc
     · simp [runtimeMethods]
     · exact callsIn_runtime sub c hc
+  | .foldG _ _ _ g, c, hc => by
+    simp only [callsIn, List.mem_cons] at hc
+    rcases hc with rfl | rfl | rfl | rfl | rfl | rfl | hc
+    · simp [runtimeMethods]
+    · simp [runtimeMethods]
+    · simp [runtimeMethods]
+    · simp [runtimeMethods]
+    · simp [runtimeMethods]
+    · simp [runtimeMethods]
+    · exact callsIn_runtime g c hc
   | .nested _ g, c, hc => by
     simp only [callsIn, List.mem_cons] at hc
     rcases hc with rfl | rfl | rfl | hc
